@@ -94,10 +94,16 @@ func runSolver(s solverSpec, file string, timeoutS int) (status, output string, 
 	cmd.Run()
 	ms = time.Since(t0).Milliseconds()
 	output = out.String()
-	first := strings.TrimSpace(strings.SplitN(output, "\n", 2)[0])
-	switch first {
-	case "unsat", "sat", "unknown":
-		return first, output, ms
+	for _, line := range strings.Split(output, "\n") {
+		first := strings.TrimSpace(line)
+		if strings.HasPrefix(first, "WARNING") || first == "" {
+			continue
+		}
+		switch first {
+		case "unsat", "sat", "unknown":
+			return first, output[strings.Index(output, first):], ms
+		}
+		break
 	}
 	if strings.Contains(output, "timeout") || ctx.Err() != nil {
 		return "timeout", output, ms
